@@ -134,3 +134,158 @@ pub fn guarded<T>(f: impl FnOnce() -> T) -> Result<T, ()> {
 pub fn off(p: *const u8, base: *const u8) -> i64 {
     (p as i64) - (base as i64)
 }
+
+
+/// Iterator-protocol probe: every other route through the `Iterator` API (`nth`, `count`, `last`, `skip`, `step_by`,
+/// `size_hint`, clones taken mid-way) must agree with plain `next()`-draining. `mk` makes a fresh iterator, `key` renders an
+/// item as a comparable key (address or decoded fields). Returns what disagreed, or None. Only called when the plain drain
+/// ended normally with `n` items. (Round 7: positions up to n+3, and the iterator must STAY exhausted / continue correctly
+/// after `nth` / `skip`.)
+pub fn probe<I, K>(mk: impl Fn() -> I, key: impl Fn(I::Item) -> K + Copy, n: usize, hint: bool) -> Option<String>
+where
+    I: Iterator + Clone,
+    K: PartialEq,
+{
+    if n > 512 {
+        return None;
+    }
+    let r = guarded(|| {
+        let refs: Vec<K> = mk().map(key).collect();
+        if refs.len() != n {
+            return Some(format!("collect:{}", refs.len()));
+        }
+        for k in 0..=n + 3 {
+            let mut it = mk();
+            let got = it.nth(k).map(key);
+            if got.as_ref() != refs.get(k) {
+                return Some(format!("nth({})", k));
+            }
+            if k >= n {
+                // the end has been reported: the iterator stays exhausted whatever is asked next
+                if it.next().is_some() || it.nth(0).is_some() || it.nth(2).is_some() || it.next().is_some() {
+                    return Some(format!("nth({})-then-next", k));
+                }
+            } else if it.next().map(key).as_ref() != refs.get(k + 1) {
+                return Some(format!("nth({})-then-next", k));
+            }
+            let mut sk = mk().skip(k);
+            if sk.next().map(key).as_ref() != refs.get(k) {
+                return Some(format!("skip({})", k));
+            }
+            if sk.next().map(key).as_ref() != refs.get(k + 1) || (k >= n && sk.next().is_some()) {
+                return Some(format!("skip({})-then-next", k));
+            }
+        }
+        if mk().count() != n {
+            return Some("count".into());
+        }
+        if mk().last().map(key).as_ref() != refs.last() {
+            return Some("last".into());
+        }
+        for s in 1..=3usize {
+            let got: Vec<K> = mk().step_by(s).map(key).collect();
+            let want: Vec<&K> = refs.iter().step_by(s).collect();
+            if got.len() != want.len() || got.iter().zip(want.iter()).any(|(a, b)| a != *b) {
+                return Some(format!("step_by({})", s));
+            }
+        }
+        // (the ELF iterator reports the number of ENTRIES left, of which unused ones are skipped: its lower bound is not
+        // compared - the property says nothing about it)
+        let (lo, hi) = mk().size_hint();
+        if hint && (lo > n || hi.map(|h| h < n).unwrap_or(false)) {
+            return Some("size_hint".into());
+        }
+        // consecutive nth(0) calls behave like next(); nth after exhaustion stays None
+        let mut it = mk();
+        for k in 0..n {
+            if it.nth(0).map(key).as_ref() != refs.get(k) {
+                return Some(format!("nth0@{}", k));
+            }
+        }
+        if it.nth(0).is_some() || it.next().is_some() || it.nth(3).is_some() {
+            return Some("after-end".into());
+        }
+        // nth(j) from every position i lands on item i+j
+        for i in 0..=n.min(6) {
+            for j in 0..=3usize {
+                let mut it = mk();
+                for _ in 0..i {
+                    it.next();
+                }
+                if it.nth(j).map(key).as_ref() != refs.get(i + j) {
+                    return Some(format!("nth({})@{}", j, i));
+                }
+            }
+        }
+        // clones taken at every position continue with the remaining suffix
+        let mut it = mk();
+        for k in 0..=n {
+            let rest: Vec<K> = it.clone().map(key).collect();
+            if rest.len() != n - k || rest.iter().zip(refs[k..].iter()).any(|(a, b)| a != b) {
+                return Some(format!("clone@{}", k));
+            }
+            it.next();
+        }
+        None
+    });
+    match r {
+        Ok(x) => x,
+        Err(()) => Some("panic".into()),
+    }
+}
+
+/// The same idea for a walk that ENDED IN A PANIC after `m` delivered items: every other route must deliver the same `m`
+/// items and then panic as well - in particular it must not hop over the malformed element (and read whatever lies behind
+/// it) or report a clean end.
+pub fn probe_panicked<I, K>(mk: impl Fn() -> I, key: impl Fn(I::Item) -> K + Copy, m: usize) -> Option<String>
+where
+    I: Iterator,
+    K: PartialEq,
+{
+    if m > 512 {
+        return None;
+    }
+    let mut refs: Vec<K> = Vec::new();
+    {
+        let mut it = mk();
+        for _ in 0..m {
+            match guarded(|| it.next()) {
+                Ok(Some(x)) => refs.push(key(x)),
+                _ => return Some("replay".into()),
+            }
+        }
+        if guarded(|| it.next()).is_ok() {
+            return Some("replay-end".into());
+        }
+    }
+    for k in 0..=m + 3 {
+        match (guarded(|| mk().nth(k).map(key)), k < m) {
+            (Ok(Some(x)), true) if x == refs[k] => {}
+            (Err(()), false) => {}
+            _ => return Some(format!("nth({})!", k)),
+        }
+        match (guarded(|| mk().skip(k).next().map(key)), k < m) {
+            (Ok(Some(x)), true) if x == refs[k] => {}
+            (Err(()), false) => {}
+            _ => return Some(format!("skip({})!", k)),
+        }
+    }
+    if guarded(|| mk().count()).is_ok() {
+        return Some("count!".into());
+    }
+    if guarded(|| mk().last().map(key)).is_ok() {
+        return Some("last!".into());
+    }
+    for s in 2..=3usize {
+        let mut it = mk().step_by(s);
+        let mut i = 0usize;
+        loop {
+            match (guarded(|| it.next().map(key)), i < m) {
+                (Ok(Some(x)), true) if x == refs[i] => i += s,
+                (Err(()), false) => break,
+                _ => return Some(format!("step_by({})!", s)),
+            }
+        }
+    }
+    None
+}
